@@ -61,7 +61,7 @@ def storage_opts(kind):
     return opts, acc
 
 
-def make_source(R, rng, d, i):
+def make_source(R, rng, d, i, force_kind=None):
     """Returns (url/dir, info, acc_opts, kind) or None."""
     shape = [rng.randrange(3, 21) for _ in range(3)]
     if rng.random() < 0.3:
@@ -77,9 +77,14 @@ def make_source(R, rng, d, i):
         vals = np.array([rng.choice([0, 1, hi, hi - 1, 255, 256, 65535, 65536]) % (hi + 1) if rng.random() < 0.4
                          else rng.randrange(hi + 1) for _ in range(n)], dtype=dt)
     arr = vals.reshape(shape + ([nch] if nch > 1 else []))
+    if rng.random() < 0.4:
+        # background: whole chunks of zeros (an object on an empty background)
+        cut = [rng.randrange(0, max(1, n_ // 2 + 1)) for n_ in shape]
+        arr[cut[0]:, cut[1]:, ...] = 0
+        R.count("source:zero-background")
     nii = os.path.join(d, "src.nii")
     out = os.path.join(d, "src")
-    kind = rng.choice(["deep-gz", "flat", "flat-gz", "deep", "sharded"])
+    kind = force_kind or rng.choice(["deep-gz", "flat", "flat-gz", "deep", "sharded"])
     vox = (1.0, 1.0, 1.0)
     if kind != "sharded" and rng.random() < 0.5:     # anisotropic voxels -> anisotropic chunk sizes
         vox = rng.choice([(1.0, 1.0, 2.0), (1.0, 1.0, 4.0), (2.0, 1.0, 1.0), (1.0, 4.0, 1.0), (0.5, 1.0, 2.0)])
@@ -106,9 +111,54 @@ def make_source(R, rng, d, i):
     return out, info, acc, kind
 
 
+def api_sequence(R, rng):
+    """Several conversions through the library API in ONE process with the default options: state must
+    not leak from one call to the next (a sharded --copy-info conversion followed by an unsharded one)."""
+    from neuroglancer_scripts.scripts import convert_chunks as cc
+    d = os.path.join(R.tmp, "apiseq")
+    os.makedirs(d)
+    a = make_source(R, rng, os.path.join(d, "a"), 0, force_kind="sharded") if os.makedirs(os.path.join(d, "a")) is None else None
+    b = make_source(R, rng, os.path.join(d, "b"), 1, force_kind="flat") if os.makedirs(os.path.join(d, "b")) is None else None
+    case = {"api_sequence": "sharded --copy-info, then unsharded", "ok_sources": [bool(a), bool(b)]}
+    R.case(case, nontrivial=True)
+    if not a or not b:
+        R.count("apiseq:source-failed")
+        return
+    import logging
+    logging.disable(logging.CRITICAL)
+    try:
+        try:
+            cc.convert_chunks(a[0], os.path.join(d, "dst-a"), copy_info=True)
+        except Exception as e:  # noqa: BLE001
+            R.violation("library call convert_chunks(sharded source, copy_info=True) failed", case,
+                        {"exc": f"{type(e).__name__}: {e}"[:200]})
+            return
+        dstb = os.path.join(d, "dst-b")
+        try:
+            cc.convert_chunks(b[0], dstb, copy_info=True)
+        except Exception as e:  # noqa: BLE001
+            R.violation("a second conversion in the same process failed (state leaked from the first call?)",
+                        case, {"exc": f"{type(e).__name__}: {e}"[:300]})
+            return
+    finally:
+        logging.disable(logging.NOTSET)
+    try:
+        _, src_scales = pipeline.read_dataset(b[0], b[2])
+        _, dst_scales = pipeline.read_dataset(dstb, {})
+        for k in src_scales:
+            if k not in dst_scales or src_scales[k].tobytes() != dst_scales[k].tobytes():
+                R.violation("second conversion of the sequence: destination differs from its source", case, {"scale": k})
+                break
+    except Exception as e:  # noqa: BLE001
+        R.violation("second conversion of the sequence: destination unreadable", case,
+                    {"exc": f"{type(e).__name__}: {e}"[:200]})
+    R.count("apiseq:done")
+
+
 def run(R):
     R.rule = RULE
     rng = R.rng
+    api_sequence(R, rng)
     n = 24 if R.tier == "quick" else 500
     for i in range(n):
         d = os.path.join(R.tmp, f"c{i}")
